@@ -15,8 +15,9 @@ from typing import Callable, Dict, List, Optional, Tuple
 class NetConfig:
     """Per-run network knobs (JSON-serialisable through to_dict/from_dict)."""
 
-    def __init__(self, latency="zero", hwm=65536, frag_default="whole", frag=None):
+    def __init__(self, latency="zero", hwm=65536, frag_default="whole", frag=None, connect_delay=0.0):
         self.latency = latency  # zero | lan | slow | bursty
+        self.connect_delay = connect_delay  # seconds between the server's accept and the client's connect() returning
         self.hwm = hwm
         self.frag_default = frag_default
         self.frag = dict(frag or {})  # stream label -> mode string
@@ -435,9 +436,19 @@ class SimNet:
         st.out, st.inp = down, up
         self.conns.append((ct, st))
         self.count("connections")
-        # accept happens "immediately"; both protocols learn of the connection now
+        # the server accepts now; the client's connect() returns after the configured handshake delay (a server may
+        # already have pushed data by then: it waits in the pipe until the client side exists)
         sproto.connection_made(st)
-        cproto.connection_made(ct)
+        if self.cfg.connect_delay:
+            ct._paused_reading = True
+            fut = self.loop.create_future()
+            self.loop.call_later(self.cfg.connect_delay, fut.set_result, None)
+            await fut
+            cproto.connection_made(ct)
+            ct.resume_reading()
+            self.count("delayed_connects")
+        else:
+            cproto.connection_made(ct)
         return ct, cproto
 
     def close_all(self):
